@@ -140,7 +140,17 @@ def check_rmi(ctx, rep, cl):
         f_paths = ctx.A.paths(f_av).paths
         identity = [pp for pp in f_paths if pp.feasible() and pp.kind == "return" and pp.returned() == ("param", f_av.params[0])]
         out["identity_stop"] = bool(identity) and flagvar is not None
-        out["identity_conds"] = [pp.describe()[:120] for pp in identity][:3]
+        from .secret_flow import AV
+        av = AV(ctx)
+        kinds = set()
+        for pp in identity:
+            if pp.truth(("compare", ("in",), (av.V, av.reserved))) is True:
+                kinds.add("value-is-reserved-word")
+            elif pp.truth(av.V) is False:
+                kinds.add("value-empty")
+            else:
+                kinds.add("other:" + pp.describe()[:80])
+        out["identity_conds"] = sorted(kinds)
     return r, out
 
 
